@@ -178,15 +178,15 @@ theorem repr1_absorb (p : PCfg) (f : Fmt) (hc : contOK p = true) (hcd : CdataAgr
     have hctx' := ctxOK_push p hc ctx hctx (fullName i)
     simp only [absorb1]
     refine ⟨?_, by simp⟩
-    have hfn : fullName ⟨fullName i, none, normAttrs p f (fullName i) i.attrs, p.voidTags.contains (fullName i), false⟩ = fullName i := by
+    have hfn : fullName ⟨fullName i, none, normAttrs p f (fullName i) i.attrs, p.isVoid (fullName i), false⟩ = fullName i := by
       simp [fullName, prefixStr]
     -- the element itself
-    have hself : representable p f (Node.tag ⟨fullName i, none, normAttrs p f (fullName i) i.attrs, p.voidTags.contains (fullName i), false⟩
+    have hself : representable p f (Node.tag ⟨fullName i, none, normAttrs p f (fullName i) i.attrs, p.isVoid (fullName i), false⟩
         ((absorb p f (pushCtx p ctx (fullName i)) [] ks).1 ++ txt p (pushCtx p ctx (fullName i)) (absorb p f (pushCtx p ctx (fullName i)) [] ks).2)) = true := by
       simp only [representable, hfn, Bool.and_eq_true, beq_iff_eq, Bool.not_false, true_and]
       refine ⟨⟨⟨⟨⟨hname, ?_⟩, ?_⟩, ?_⟩, ?_⟩, ?_⟩
       · -- void: no children before, none after
-        cases hv : p.voidTags.contains (fullName i) with
+        cases hv : p.isVoid (fullName i) with
         | false => simp
         | true =>
           have : ks = [] := by
